@@ -458,8 +458,8 @@ static void case_assign(vf_rng *r)
 
 /* ---- entry -------------------------------------------------------------------------- */
 static uint64_t n_raw(void) { return 70; }
-static uint64_t n_buf(void) { return vf_thorough ? 600000 : 60000; }
-static uint64_t n_meta(void) { return vf_thorough ? 650000 : 65000; }
+static uint64_t n_buf(void) { return vf_thorough ? 1800000 : 60000; }
+static uint64_t n_meta(void) { return vf_thorough ? 1950000 : 65000; }
 static uint64_t n_assign(void) { return vf_thorough ? 300000 : 30000; }
 uint64_t vf_cases(void) { return n_raw() + n_buf() + n_meta() + n_assign(); }
 void vf_case(uint64_t idx, vf_rng *r)
